@@ -27,6 +27,9 @@ func init() {
 type mapProto struct {
 	c      *Ctx
 	pre    string
+	pkg    string // package path relative to the module ("sync2"; "" for the GOROOT control)
+	pfx    string // name prefix of that package's functions ("sync2"; "sync")
+	loaders map[*ssa.Function]bool // helpers that return a fresh snapshot of the read map (loadReadOnly)
 	fMu    *types.Var
 	fRead  *types.Var
 	fDirty *types.Var
@@ -51,8 +54,14 @@ func (mp *mapProto) rule(n string) string { return mp.pre + n }
 
 // runMapProtocol runs the sync2.Map protocol rules; prefix distinguishes their use as a dependency (C03/C05/C09).
 func runMapProtocol(c *Ctx, prefix string) {
+	runMapProtocolOn(c, prefix, "sync2", "sync2", true)
+}
+
+// runMapProtocolOn runs the protocol rules on the Map implementation of one package; full=false leaves out the
+// rules that are specific to the fork's function set (used for the GOROOT negative control).
+func runMapProtocolOn(c *Ctx, prefix, pkgRel, namePfx string, full bool) {
 	R := c.R
-	mp := &mapProto{c: c, pre: prefix, paths: map[*FuncInfo][]*Path{}, needs: map[*FuncInfo]string{}, sites: map[*FuncInfo][]callSite{}}
+	mp := &mapProto{c: c, pre: prefix, pkg: pkgRel, pfx: namePfx, loaders: map[*ssa.Function]bool{}, paths: map[*FuncInfo][]*Path{}, needs: map[*FuncInfo]string{}, sites: map[*FuncInfo][]callSite{}}
 	R.Rule(mp.rule("guarded-by"), "every access to Map.dirty / Map.misses and every read.Store happens with mu held (directly, or in an unexported helper all of whose call chains hold it)", 20)
 	R.Rule(mp.rule("lock-pairing"), "no path returns or loops with mu held, locks it twice, or unlocks it when not held", 5)
 	R.Rule(mp.rule("atomic-only"), "entry.p is touched only as the address argument of sync/atomic functions (or initialised in a not yet published entry)", 8)
@@ -67,22 +76,22 @@ func runMapProtocol(c *Ctx, prefix string) {
 	R.Rule(mp.rule("no-callback-under-lock"), "no call of a function-typed parameter and no channel operation while mu is held", 8)
 	R.Rule(mp.rule("effect-completeness"), "Store stores on every path; Load/LoadOrStore/LoadAndDelete return the entry operation's own result for the entry found after the re-check; Delete delegates to LoadAndDelete", 5)
 
-	mp.fMu = c.P.FieldOf("sync2", "Map", "mu")
-	mp.fRead = c.P.FieldOf("sync2", "Map", "read")
-	mp.fDirty = c.P.FieldOf("sync2", "Map", "dirty")
-	mp.fMiss = c.P.FieldOf("sync2", "Map", "misses")
-	mp.fP = c.P.FieldOf("sync2", "entry", "p")
-	mp.fROm = c.P.FieldOf("sync2", "readOnly", "m")
-	mp.fROam = c.P.FieldOf("sync2", "readOnly", "amended")
+	mp.fMu = c.P.FieldOf(mp.pkg, "Map", "mu")
+	mp.fRead = c.P.FieldOf(mp.pkg, "Map", "read")
+	mp.fDirty = c.P.FieldOf(mp.pkg, "Map", "dirty")
+	mp.fMiss = c.P.FieldOf(mp.pkg, "Map", "misses")
+	mp.fP = c.P.FieldOf(mp.pkg, "entry", "p")
+	mp.fROm = c.P.FieldOf(mp.pkg, "readOnly", "m")
+	mp.fROam = c.P.FieldOf(mp.pkg, "readOnly", "amended")
 	for n, f := range map[string]*types.Var{"Map.mu": mp.fMu, "Map.read": mp.fRead, "Map.dirty": mp.fDirty, "Map.misses": mp.fMiss, "entry.p": mp.fP, "readOnly.m": mp.fROm, "readOnly.amended": mp.fROam} {
 		if f == nil {
-			R.Unproven(mp.rule("guarded-by"), "sync2."+n, "anchor", "", "anchor no longer resolves: field "+n)
+			R.Unproven(mp.rule("guarded-by"), mp.pfx+"."+n, "anchor", "", "anchor no longer resolves: field "+n)
 			return
 		}
 	}
 	// the map implementation = functions of package sync2 with receiver Map or entry, plus newEntry
-	for _, fi := range c.P.FuncsOfPkg("sync2") {
-		if strings.HasPrefix(fi.Name, "sync2.(*Map).") || strings.HasPrefix(fi.Name, "sync2.(*entry).") || strings.HasPrefix(fi.Name, "sync2.(Map).") || strings.HasPrefix(fi.Name, "sync2.(entry).") || fi.Name == "sync2.newEntry" {
+	for _, fi := range c.P.FuncsOfPkg(mp.pkg) {
+		if strings.HasPrefix(fi.Name, mp.pfx+".(*Map).") || strings.HasPrefix(fi.Name, mp.pfx+".(*entry).") || strings.HasPrefix(fi.Name, mp.pfx+".(Map).") || strings.HasPrefix(fi.Name, mp.pfx+".(entry).") || fi.Name == mp.pfx+".newEntry" {
 			mp.funcs = append(mp.funcs, fi)
 		}
 	}
@@ -96,6 +105,42 @@ func runMapProtocol(c *Ctx, prefix string) {
 			R.Unproven(mp.rule("guarded-by"), fi.Name, "closures", c.pos(fi), "the map implementation uses closures; lock regions are not tracked across them")
 		}
 	}
+	// helpers returning a fresh snapshot of the read map (e.g. loadReadOnly): every returning path yields the
+	// value just loaded from recv.read (dereferenced / type-asserted) or the empty snapshot
+	for _, fi := range mp.funcs {
+		if !mp.isMapRecv(fi) || len(mp.paths[fi]) == 0 {
+			continue
+		}
+		all, some := true, false
+		for _, p := range mp.paths[fi] {
+			if p.End != EndReturn || len(p.Rets) != 1 {
+				all = false
+				continue
+			}
+			r := p.Rets[0]
+			loads := 0
+			for i := range p.Events {
+				e := &p.Events[i]
+				if e.Kind == "call" && isAtomicLoadName(e.Name) && len(e.Args) == 1 && isFieldAddr(e.Args[0], mp.fRead, mp.recv(fi)) {
+					loads++
+					if r.ContainsKey(e.Res.Key()) {
+						some = true
+					}
+				} else if e.Kind != "store" || e.Addr.Op != "alloc" {
+					all = false
+				}
+			}
+			if loads != 1 {
+				all = false
+			}
+			if !(r.Op == "zero" || r.Op == "struct" || r.Op == "load" || r.Op == "extract" || r.Op == "tassert") {
+				all = false
+			}
+		}
+		if all && some && fi.Obj.Type().(*types.Signature).Params().Len() == 0 {
+			mp.loaders[fi.SSA] = true
+		}
+	}
 	mp.guardedBy()
 	mp.lockPairing()
 	mp.atomicOnly()
@@ -106,15 +151,19 @@ func runMapProtocol(c *Ctx, prefix string) {
 	mp.amendedOnNewKey()
 	mp.promotionPairing()
 	mp.readmapImmutable()
-	mp.rangePromotes()
+	if full {
+		mp.rangePromotes()
+	}
 	mp.noCallbackUnderLock()
-	mp.effectCompleteness()
+	if full {
+		mp.effectCompleteness()
+	}
 }
 
 // ---- helpers ----------------------------------------------------------------
 
 func (mp *mapProto) isMapRecv(fi *FuncInfo) bool {
-	return strings.HasPrefix(fi.Name, "sync2.(*Map).")
+	return strings.HasPrefix(fi.Name, mp.pfx+".(*Map).")
 }
 
 func (mp *mapProto) recv(fi *FuncInfo) *Term { return paramOf(fi, 0) }
@@ -208,9 +257,11 @@ func (mp *mapProto) guardedAccesses(p *Path) []guardedAccess {
 			out = append(out, guardedAccess{"insert into the dirty map", i, e.Instr, true})
 		case e.Kind == "call" && e.Name == "builtin.delete" && mp.isDirtyMap(p, e.Args[0]):
 			out = append(out, guardedAccess{"delete from the dirty map", i, e.Instr, true})
+		case e.Kind == "call" && e.Name == "builtin.clear" && mp.isDirtyMap(p, e.Args[0]):
+			out = append(out, guardedAccess{"clear of the dirty map", i, e.Instr, true})
 		case e.Kind == "call" && e.Name == "builtin.len" && mp.isDirtyMap(p, e.Args[0]) && !mp.demotedBefore(p, i):
 			out = append(out, guardedAccess{"len of the dirty map", i, e.Instr, false})
-		case e.Kind == "call" && e.Name == "sync/atomic.(*Value).Store" && isFieldAddr(e.Args[0], mp.fRead, nil):
+		case e.Kind == "call" && isAtomicStoreName(e.Name) && isFieldAddr(e.Args[0], mp.fRead, nil):
 			out = append(out, guardedAccess{"read.Store", i, e.Instr, true})
 		}
 	}
@@ -225,14 +276,14 @@ func (mp *mapProto) privilegedOps(p *Path) []guardedAccess {
 		if e.Kind != "call" || len(e.Args) == 0 || !isFieldAddr(e.Args[0], mp.fP, nil) {
 			continue
 		}
-		switch e.Name {
-		case "sync/atomic.StorePointer":
+		switch entryOpKind(e.Name) {
+		case "store", "swap":
 			// initialising a fresh, unpublished entry is free
 			if rootOf(e.Args[0]).Op == "alloc" {
 				continue
 			}
 			out = append(out, guardedAccess{"plain atomic store to entry.p", i, e.Instr, true})
-		case "sync/atomic.CompareAndSwapPointer":
+		case "cas":
 			if mp.isExpunged(e.Args[1]) && e.Args[2].IsNil() {
 				out = append(out, guardedAccess{"unexpunge CAS", i, e.Instr, true})
 			}
@@ -342,7 +393,7 @@ func (mp *mapProto) guardedBy() {
 	}
 	// also count call sites from outside the map implementation (other files of the package)
 	outside := map[*FuncInfo][]string{}
-	for _, fi := range c.P.FuncsOfPkg("sync2") {
+	for _, fi := range c.P.FuncsOfPkg(mp.pkg) {
 		isImpl := false
 		for _, g := range mp.funcs {
 			if g == fi {
@@ -476,7 +527,7 @@ func (mp *mapProto) lockPairing() {
 func (mp *mapProto) atomicOnly() {
 	c := mp.c
 	rule := mp.rule("atomic-only")
-	for _, fi := range c.P.FuncsOfPkg("sync2") {
+	for _, fi := range c.P.FuncsOfPkg(mp.pkg) {
 		for _, fn := range append([]*ssa.Function{fi.SSA}, fi.Closures...) {
 			n := 0
 			for _, b := range fn.Blocks {
@@ -497,6 +548,9 @@ func (mp *mapProto) atomicOnly() {
 							switch x := r.(type) {
 							case *ssa.Call:
 								sc := x.Call.StaticCallee()
+								if sc != nil && sc.Origin() != nil {
+									sc = sc.Origin()
+								}
 								if sc == nil || sc.Pkg == nil || sc.Pkg.Pkg.Path() != "sync/atomic" || len(x.Call.Args) == 0 || x.Call.Args[0] != ssa.Value(fa) {
 									bad = "address of p passed to " + x.Call.Value.String()
 								}
@@ -523,7 +577,7 @@ func (mp *mapProto) atomicOnly() {
 		}
 	}
 	// direct Field reads of p on entry values
-	for _, fi := range c.P.FuncsOfPkg("sync2") {
+	for _, fi := range c.P.FuncsOfPkg(mp.pkg) {
 		for _, fn := range append([]*ssa.Function{fi.SSA}, fi.Closures...) {
 			for _, b := range fn.Blocks {
 				for _, in := range b.Instrs {
@@ -545,7 +599,10 @@ func (mp *mapProto) snapshotLoads(p *Path) map[string]int {
 	out := map[string]int{}
 	for i := range p.Events {
 		e := &p.Events[i]
-		if e.Kind == "call" && e.Name == "sync/atomic.(*Value).Load" && len(e.Args) == 1 && isFieldAddr(e.Args[0], mp.fRead, nil) {
+		if e.Kind == "call" && isAtomicLoadName(e.Name) && len(e.Args) == 1 && isFieldAddr(e.Args[0], mp.fRead, nil) {
+			out[e.Res.Key()] = i
+		}
+		if e.Kind == "call" && e.SSAFn != nil && mp.loaders[e.SSAFn] {
 			out[e.Res.Key()] = i
 		}
 	}
@@ -645,14 +702,70 @@ func (mp *mapProto) promotionEvents(p *Path) []int {
 	var out []int
 	for i := range p.Events {
 		e := &p.Events[i]
-		if e.Kind == "call" && e.Name == "sync/atomic.(*Value).Store" && isFieldAddr(e.Args[0], mp.fRead, nil) && len(e.Args) == 2 {
-			v := stripIface(e.Args[1])
-			if v.Op == "struct" && len(v.Args) >= 1 && mp.isDirtyMap(p, v.Args[0]) {
+		if e.Kind == "call" && isAtomicStoreName(e.Name) && isFieldAddr(e.Args[0], mp.fRead, nil) && len(e.Args) == 2 {
+			if m, _, ok := mp.snapshotStored(p, i); ok && mp.isDirtyMap(p, m) {
 				out = append(out, i)
 			}
 		}
 	}
 	return out
+}
+
+// snapshotStored: the (m, amended) components of the readOnly value published by the read.Store at event i.
+func (mp *mapProto) snapshotStored(p *Path, i int) (m, amended *Term, ok bool) {
+	e := &p.Events[i]
+	if len(e.Args) != 2 {
+		return nil, nil, false
+	}
+	v := stripIface(e.Args[1])
+	pick := func(st *Term) (*Term, *Term, bool) {
+		if st.Op != "struct" {
+			return nil, nil, false
+		}
+		stt, isSt := st.Typ.Underlying().(*types.Struct)
+		if !isSt {
+			return nil, nil, false
+		}
+		var mm, aa *Term
+		for k := 0; k < stt.NumFields() && k < len(st.Args); k++ {
+			if sameField(stt.Field(k), mp.fROm) {
+				mm = st.Args[k]
+			}
+			if sameField(stt.Field(k), mp.fROam) {
+				aa = st.Args[k]
+			}
+		}
+		return mm, aa, mm != nil
+	}
+	if mm, aa, ok := pick(v); ok {
+		return mm, aa, true
+	}
+	if v.Op == "alloc" {
+		// &readOnly{...} or &copy: look at what was stored into the cell before the publication
+		var mm, aa *Term
+		for j := 0; j < i; j++ {
+			f := &p.Events[j]
+			if f.Kind != "store" {
+				continue
+			}
+			if f.Addr.Key() == v.Key() {
+				if a, b, ok := pick(f.Val); ok {
+					mm, aa = a, b
+				}
+			}
+			if isFieldAddr(f.Addr, mp.fROm, v) {
+				mm = f.Val
+			}
+			if isFieldAddr(f.Addr, mp.fROam, v) {
+				aa = f.Val
+			}
+		}
+		if mm == nil {
+			mm = &Term{Op: "const", Sym: "nil"}
+		}
+		return mm, aa, true
+	}
+	return nil, nil, false
 }
 
 func (mp *mapProto) funcPromotes(fi *FuncInfo) bool {
@@ -786,7 +899,7 @@ func (mp *mapProto) casProtocol() {
 				if e.Kind != "call" || len(e.Args) == 0 || !isFieldAddr(e.Args[0], mp.fP, nil) {
 					continue
 				}
-				if e.Name != "sync/atomic.CompareAndSwapPointer" && e.Name != "sync/atomic.StorePointer" && e.Name != "sync/atomic.SwapPointer" {
+				if k := entryOpKind(e.Name); k != "cas" && k != "store" && k != "swap" {
 					continue
 				}
 				k := instrOrdinal(e.Instr)
@@ -801,10 +914,8 @@ func (mp *mapProto) casProtocol() {
 					s.why = w
 				}
 				addr := e.Args[0]
-				switch e.Name {
-				case "sync/atomic.SwapPointer":
-					fail("unconditional swap on entry.p")
-				case "sync/atomic.StorePointer":
+				switch entryOpKind(e.Name) {
+				case "store", "swap":
 					if rootOf(addr).Op == "alloc" {
 						s.form = "initialisation of an unpublished entry"
 						continue
@@ -816,7 +927,7 @@ func (mp *mapProto) casProtocol() {
 					if e.Args[1].IsNil() {
 						fail("nil is written by a plain store (deletes must CAS)")
 					}
-				case "sync/atomic.CompareAndSwapPointer":
+				case "cas":
 					old, nw := e.Args[1], e.Args[2]
 					switch {
 					case old.IsNil() && mp.isExpunged(nw):
@@ -829,32 +940,76 @@ func (mp *mapProto) casProtocol() {
 						fail("CAS from expunged to a value: the entry is not in dirty")
 					default:
 						// old must be a LoadPointer of the same word on this path, known != expunged (and != nil for deletes)
-						if !(old.Op == "call" && old.Sym == "sync/atomic.LoadPointer" && len(old.Args) == 1 && old.Args[0].Key() == addr.Key()) {
+						isWordLoad := func(t *Term) bool {
+							return t != nil && t.Op == "call" && entryOpKind(t.Sym) == "load" && len(t.Args) == 1 && t.Args[0].Key() == addr.Key()
+						}
+						// excl reports which of {expunged, nil} the conditions of path q (up to event upto) exclude for t
+						excl := func(q *Path, upto int, t *Term) (ne, nn bool) {
+							for _, cd := range q.Conds {
+								if cd.NEv > upto {
+									continue
+								}
+								r := cd.Rel()
+								if r.B == nil || r.Op != "!=" {
+									continue
+								}
+								a, b := r.A, r.B
+								if b.Key() == t.Key() {
+									a, b = b, a
+								}
+								if a.Key() != t.Key() {
+									continue
+								}
+								if mp.isExpunged(b) {
+									ne = true
+								}
+								if b.IsNil() {
+									nn = true
+								}
+							}
+							return
+						}
+						okOld := isWordLoad(old)
+						notExp, notNil := false, false
+						if okOld {
+							notExp, notNil = excl(p, i, old)
+						} else if old.Op == "loopvar" {
+							// a value re-loaded at the end of every iteration: p := load; for { CAS(p, ..); p = load }.
+							// Inductive: the initial load and every re-load are of the same word and are tested
+							// before the header is (re-)entered.
+							for _, li := range findLoops(mp.paths[fi]) {
+								for phi, lv := range li.LV {
+									if lv.Key() != old.Key() {
+										continue
+									}
+									all := isWordLoad(li.Init[phi]) && len(li.Back) > 0
+									ne, nn := true, true
+									for _, q := range mp.paths[fi] {
+										at, in := q.LoopAt[li.Hdr]
+										if !in || !all {
+											continue
+										}
+										e1, n1 := excl(q, at, li.Init[phi])
+										ne, nn = ne && e1, nn && n1
+									}
+									for _, q := range li.Back {
+										nx := q.Next[phi]
+										if !isWordLoad(nx) {
+											all = false
+											continue
+										}
+										e1, n1 := excl(q, len(q.Events), nx)
+										ne, nn = ne && e1, nn && n1
+									}
+									okOld = all
+									e0, n0 := excl(p, i, old)
+									notExp, notNil = (all && ne) || e0, (all && nn) || n0
+								}
+							}
+						}
+						if !okOld {
 							fail("the expected old value is not a load of the same word: " + old.String())
 							break
-						}
-						notExp, notNil := false, false
-						for _, cd := range p.Conds {
-							if cd.NEv > i {
-								continue
-							}
-							r := cd.Rel()
-							if r.B == nil || r.Op != "!=" {
-								continue
-							}
-							a, b := r.A, r.B
-							if b.Key() == old.Key() {
-								a, b = b, a
-							}
-							if a.Key() != old.Key() {
-								continue
-							}
-							if mp.isExpunged(b) {
-								notExp = true
-							}
-							if b.IsNil() {
-								notNil = true
-							}
 						}
 						if !notExp {
 							fail("CAS(p -> x) on a path that has not excluded p == expunged: a value is stored into an entry that dirty does not contain")
@@ -1133,11 +1288,9 @@ func (mp *mapProto) amendedOnNewKey() {
 				// or: read.Store(readOnly{m: <fresh>.m, amended: true}) before, on this path, under this lock
 				for j := lockIdx + 1; j < i && j >= 0; j++ {
 					f := &p.Events[j]
-					if f.Kind == "call" && f.Name == "sync/atomic.(*Value).Store" && isFieldAddr(f.Args[0], mp.fRead, nil) {
-						v := stripIface(f.Args[1])
-						if v.Op == "struct" && len(v.Args) == 2 && v.Args[1].IsConst("true") {
+					if f.Kind == "call" && isAtomicStoreName(f.Name) && isFieldAddr(f.Args[0], mp.fRead, nil) {
+						if m, am, okS := mp.snapshotStored(p, j); okS && am != nil && am.IsConst("true") {
 							// m must be the fresh snapshot's m
-							m := v.Args[0]
 							fresh := false
 							m.Walk(func(x *Term) bool {
 								if idx, ok := snaps[x.Key()]; ok && idx > lockIdx {
@@ -1278,7 +1431,7 @@ func (mp *mapProto) readmapImmutable() {
 func (mp *mapProto) rangePromotes() {
 	c := mp.c
 	rule := mp.rule("range-promotes")
-	fi := c.fn(rule, "sync2.(*Map).Range")
+	fi := c.fn(rule, mp.pfx+".(*Map).Range")
 	if fi == nil {
 		return
 	}
@@ -1557,4 +1710,27 @@ func (mp *mapProto) effectCompleteness() {
 		ok := len(ps) == 1 && len(ps[0].Events) == 1 && ps[0].Events[0].Name == "sync2.(*Map).LoadAndDelete" && isParam(ps[0].Events[0].Args[0], 0) && isParam(ps[0].Events[0].Args[1], 1)
 		c.R.Decide(ok, rule, fi.Name, "delegates", c.pos(fi), "Delete = LoadAndDelete(key)", "Delete is not LoadAndDelete(key)")
 	}
+}
+
+func isAtomicLoadName(n string) bool {
+	return strings.HasSuffix(n, "atomic.(*Value).Load") || strings.HasSuffix(n, "atomic.(*Pointer).Load")
+}
+
+func isAtomicStoreName(n string) bool {
+	return strings.HasSuffix(n, "atomic.(*Value).Store") || strings.HasSuffix(n, "atomic.(*Pointer).Store")
+}
+
+// entryOpKind classifies an atomic operation on a pointer word by its name (package-level functions and atomic.Pointer methods).
+func entryOpKind(n string) string {
+	switch {
+	case strings.HasSuffix(n, "atomic.LoadPointer"), strings.HasSuffix(n, "atomic.(*Pointer).Load"):
+		return "load"
+	case strings.HasSuffix(n, "atomic.StorePointer"), strings.HasSuffix(n, "atomic.(*Pointer).Store"):
+		return "store"
+	case strings.HasSuffix(n, "atomic.SwapPointer"), strings.HasSuffix(n, "atomic.(*Pointer).Swap"):
+		return "swap"
+	case strings.HasSuffix(n, "atomic.CompareAndSwapPointer"), strings.HasSuffix(n, "atomic.(*Pointer).CompareAndSwap"):
+		return "cas"
+	}
+	return ""
 }
